@@ -643,6 +643,18 @@ def r2_mksetpv(ctx):
 
         if any(mask_short(c, dd, rn[2], rj[2]) for c, dd, _ in extra):
             continue                # minor mask inside major mask: no DOF can be in minor only, the regime is empty
+        # tests on the two masks themselves (bit operations and their truth): decided over every pair of 4-bit masks.  Some DOF can be in minor
+        # and not in major exactly when the minor mask has a bit outside the major mask; the regime is non-empty iff such a pair passes the tests
+        fs = [_mask_fn(c, rn[2], rj[2]) for c, dd, _ in extra]
+        if extra and all(f is not None for f in fs):
+            wit = next(((m, j) for m in range(16) for j in range(16)
+                        if m & ~j and all(bool(f(m, j)) == dd for f, (c, dd, _) in zip(fs, extra))), None)
+            if wit is None:
+                continue
+            refusal_ok = False
+            detail = {"regime": p.describe(), "consequence": "a minor set that spills outside the major set is not refused",
+                      "witness (minor mask, major mask)": [bin(wit[0]), bin(wit[1])]}
+            continue
         if not extra or any(mask_short(c, dd, rj[2], rn[2]) for c, dd, _ in extra):
             refusal_ok = False
             detail = {"regime": p.describe(), "consequence": "a minor set that spills outside the major set is not refused "
@@ -661,6 +673,48 @@ def r2_mksetpv(ctx):
     bad = _first(roles, lambda t: t[1] is None or t[2] is None)
     ctx.check(ok, "mksetpv returns pvminor[pvmajor] (major-set length, minor-set DOF true, table order)", rets[-1].ret_node,
               None if ok else {"returned": _show(bad[0].ret), "regime": bad[0].describe()})
+
+
+def _mask_fn(c, M, J):
+    """the value c as a Python function of two concrete integer masks (M -> m, J -> j), or None when c is built from anything but the two masks,
+    integer constants, & | ^ ~, comparisons and not / bool"""
+    import operator
+    CMP = {"Eq": operator.eq, "NotEq": operator.ne, "Gt": operator.gt, "GtE": operator.ge, "Lt": operator.lt, "LtE": operator.le}
+    BIT = {"mask:BitAnd": operator.and_, "mask:BitOr": operator.or_, "mask:BitXor": operator.xor}
+
+    def build(x):
+        if same(x, M):
+            return lambda m, j: m
+        if same(x, J):
+            return lambda m, j: j
+        k = const_of(x)
+        if k is not None:
+            try:
+                k = int(k) if int(k) == k else None
+            except (TypeError, ValueError):
+                k = None
+            return None if k is None else (lambda m, j, k=k: k)
+        u = unfn_m(x)
+        if u is None:
+            return None
+        nm, args = u
+        if any(isinstance(a, str) for a in args):
+            return None
+        fs = [build(a) for a in args]
+        if any(f is None for f in fs):
+            return None
+        if nm in BIT and len(fs) == 2:
+            return lambda m, j, op=BIT[nm]: op(int(fs[0](m, j)), int(fs[1](m, j)))
+        if nm == "invert" and len(fs) == 1:
+            return lambda m, j: (not fs[0](m, j)) if isinstance(fs[0](m, j), bool) else ~fs[0](m, j)
+        if nm in ("not",) and len(fs) == 1:
+            return lambda m, j: not fs[0](m, j)
+        if nm in ("call:bool", "call:int") and len(fs) == 1:
+            return fs[0]
+        if nm.startswith("cmp:") and nm[4:] in CMP and len(fs) == 2:
+            return lambda m, j, op=CMP[nm[4:]]: op(fs[0](m, j), fs[1](m, j))
+        return None
+    return build(c)
 
 
 _INT_TYPES = {"int", "np.integer", "numbers.Integral", "np.int64", "np.int32", "np.uint32", "np.uint64", "np.signedinteger", "np.unsignedinteger", "Integral"}
